@@ -10,6 +10,7 @@ package main
 // A `panic` answer from the implementation is itself a C02 violation with the input as replay.
 
 import (
+	"time"
 	"bufio"
 	"encoding/asn1"
 	"fmt"
@@ -243,6 +244,38 @@ func subWalkers(out string, seed uint64, tier string, arg string) {
 		if res == "panic" {
 			rep.violate(Violation{"C02", "util.IsNameAttribute panicked on " + s, "panic:IsNameAttribute", map[string]interface{}{"oid": s}})
 		}
+	}
+	// --- IsFQDN's prefix stripping, with a watchdog: these helpers loop on their input
+	doFQ := func(b []byte) {
+		type ans struct{ arg, fq string }
+		ch := make(chan ans, 1)
+		go func() {
+			defer func() {
+				if e := recover(); e != nil {
+					ch <- ans{"panic", ""}
+				}
+			}()
+			arg := util.RemovePrependedQuestionMarks(util.RemovePrependedWildcard(string(b)))
+			fq := "0"
+			if util.IsFQDN(string(b)) {
+				fq = "1"
+			}
+			ch <- ans{hx([]byte(arg)), fq}
+		}()
+		select {
+		case a := <-ch:
+			emit("wfq\t"+hx(b), a.arg)
+			if a.arg == "panic" {
+				rep.violate(Violation{"C02", "util.IsFQDN / its prefix stripping panicked on " + hx(b), "panic:IsFQDN", map[string]interface{}{"bytes_hex": hx(b)}})
+			}
+		case <-time.After(3 * time.Second):
+			emit("wfq\t"+hx(b), "hang")
+			rep.violate(Violation{"C01", "util.IsFQDN does not return on " + hx(b) + " (it is reached from e_name_constraint_not_fqdn and the SAN/IAN URI host lints)", "hang:IsFQDN", map[string]interface{}{"bytes_hex": hx(b)}})
+		}
+	}
+	enumStrings([]byte{'*', '?', '.', 'a'}, 5, doFQ)
+	for _, s := range []string{"*.example.com", "?.?.example.com", "*.?.example.com", "?.*.example.com", "*example.com", "?ost.example.com", "*-example.com", "**.example.com", "?", "*", "?.", "*.", "*.*.a", "example.com"} {
+		doFQ([]byte(s))
 	}
 	for leaf := 0; leaf <= 70; leaf++ {
 		doNA(asn1.ObjectIdentifier{2, 5, 4, leaf})
